@@ -263,7 +263,8 @@ def stepI (bound : Bool) (tbl : List MethodRec) (O : Oracles) (c : ClassOpts) (f
     ({ x with attrs := r.1, nones := ns }, r.2)
   | op =>
     -- `bound`: which nested-wrapper model applies (`Generated.nestedBound`, read off the code)
-    let r := stepB bound tbl O c fields x.attrs op
+    -- (the delete-runs-the-hook flag is irrelevant here: the pairs suite installs no __validate__ hook)
+    let r := stepB bound false tbl O c fields x.attrs op
     ({ x with attrs := r.1 }, r.2)
 
 def runI (bound : Bool) (tbl : List MethodRec) (O : Oracles) (c : ClassOpts) (fields : List (String × FieldDecl)) :
